@@ -35,6 +35,16 @@ type World struct {
 	reach       map[string]bool
 	cfgOptional map[*types.Var]string
 	derefSum    map[*ssa.Function]map[int]bool
+
+	// new-function inlining (inline.go)
+	base      baselineFns
+	newMemo   map[*ssa.Function]bool
+	newSites  map[*ssa.Function][]ssa.CallInstruction
+	sumMemo   map[sumKey]int
+	defsMemo  map[*FuncInfo]*funcDefs
+	condAtoms map[string]map[string]bool
+	astSites  map[string][]astCallSite
+	newParams map[types.Object]newParam
 }
 
 type FuncInfo struct {
@@ -203,6 +213,7 @@ func loadWorldMin(repoDir string, minPkgs int) (*World, error) {
 	for _, f := range w.SSAFuncs {
 		nb += len(f.Blocks)
 	}
+	curWorld = w
 	w.stats["ssa_functions"] = len(w.SSAFuncs)
 	w.stats["ssa_blocks"] = nb
 	return w, nil
